@@ -45,7 +45,20 @@ func TestCheck(t *testing.T) {
 		kind := kinds[r.IntN(3)]
 		spec := limgen.Gen(r, kind, limgen.Opts{NoProbe: true})
 		pre := genPrefix(r, r.IntN(120))
-		atMax := r.IntN(8) == 0
+		class := r.IntN(24) // 0-2: estimate exactly at its maximum, 3-4: estimate above its maximum, else: PRNG history
+		aboveMax := class == 3 || class == 4
+		if aboveMax {
+			// built with initial > max (accepted by the constructors) and still above the maximum: a short history of
+			// app-limited samples leaves the estimate where it started
+			spec.Initial = spec.Max + 1 + r.IntN(60)
+			b0 := int64(1) << uint(4+r.IntN(24))
+			pre = []limgen.Sample{{RTT: b0, InFlight: spec.Initial}}[:r.IntN(2)]
+			for i := r.IntN(3); i > 0; i-- {
+				pre = append(pre, limgen.Sample{RTT: b0 + r.Int64N(b0), InFlight: 0})
+			}
+			rt.Count("pairs_from_an_estimate_above_its_maximum", 1)
+		}
+		atMax := class < 3
 		if atMax {
 			// an estimate sitting exactly at its maximum (initial == max, history of app-limited samples that leave it alone):
 			// the clamp makes "grow" a no-op there, which must not come out lower than the no-op of a slower sample
@@ -117,6 +130,9 @@ func TestCheck(t *testing.T) {
 		if atMax {
 			lo = base
 			hi = lo + lo*int64(1+r.IntN(40))/8
+		}
+		if aboveMax && kind == "gradient2" {
+			hi = lo + gap + r.Int64N(8*lo+2)
 		}
 		inflight := before
 		switch r.IntN(4) {
